@@ -9,13 +9,17 @@ import (
 // sweepCells enumerates the small axes of the product completely (no sampling):
 //
 //	router(2) x auth method(4) x target(9 grant_type values on the token endpoint + introspection + revocation(access, refresh) + device_authorization)
-//	x presentation(24) x grant registered for the client(2, where a grant is involved) x grant / capability enabled(2, where a flag exists)
+//	x presentation(27) x grant registered for the client(2, where a grant is involved) x grant / capability enabled(2, where a flag exists)
 //	x AuthMethodPost flag(2) x key registered(2) x jwt-bearer grant assertion(7 kinds, that target only)
 //	x stored secret for private_key_jwt / public clients(2)
+//	x verifier with a lax subject check(2; for the genuine assertion and the four whose subject / issuer is not the signer)
 //	x one optional parameter: token exchange requested_token_type(absent, refresh_token, id_token); client_credentials and device
 //	  authorization scope(default, absent); refresh scope(absent, narrowing)
 //	x (targets with material of one client, grant registered and enabled) material owned by the named client / by the other client with
 //	  the other client's id riding along as a conflicting client_id where the presentation has none of its own
+//
+//	  (under a lax subject check additionally: the other client registered live - the caller's method, every grant, a key - with and
+//	  without its client_id riding along)
 //
 // and, with wide=true (thorough tier), additionally application type(3) x id/secret needing percent-encoding(2).
 // The remaining axes (conflicting client_id, parameters in the URL, private_key_jwt flag, storage faults, token_type_hint,
@@ -80,43 +84,52 @@ func sweepCells(wide bool) []Case {
 										for _, app := range appTypes(m) {
 											for _, sp := range specials {
 												for _, stored := range storedAxis(m) {
-													c := Case{Router: router, Endpoint: tg.endpoint, Grant: tg.grant, Pres: pres, ParamsIn: "body", GrantAssertion: ga, TokenKind: tg.kind}
-													c.Flags = Flags{Post: post, PKJWT: true, Refresh: true, CC: true, TE: true, Device: true}
-													if !en {
-														switch relevant {
-														case vkit.GRefr:
-															c.Flags.Refresh = false
-														case vkit.GCC:
-															c.Flags.CC = false
-														case vkit.GTE:
-															c.Flags.TE = false
-														case vkit.GDevice:
-															c.Flags.Device = false
+													for _, lax := range laxAxis(pres) {
+														c := Case{Router: router, Endpoint: tg.endpoint, Grant: tg.grant, Pres: pres, ParamsIn: "body", GrantAssertion: ga, TokenKind: tg.kind}
+														c.Flags = Flags{Post: post, PKJWT: true, Refresh: true, CC: true, TE: true, Device: true, LaxSub: lax}
+														if !en {
+															switch relevant {
+															case vkit.GRefr:
+																c.Flags.Refresh = false
+															case vkit.GCC:
+																c.Flags.CC = false
+															case vkit.GTE:
+																c.Flags.TE = false
+															case vkit.GDevice:
+																c.Flags.Device = false
+															}
 														}
-													}
-													for _, g := range vkit.AllGrants {
-														if reg || g != relevant {
-															c.Reg.Grants = append(c.Reg.Grants, g)
+														for _, g := range vkit.AllGrants {
+															if reg || g != relevant {
+																c.Reg.Grants = append(c.Reg.Grants, g)
+															}
 														}
-													}
-													c.Reg.AuthMethod, c.Reg.AppType, c.Reg.HasKeys, c.Reg.Special = m, app, keys, sp
-													// client_credentials target: a service account whether or not the grant is registered, so that the grant check stands alone
-													c.Reg.Service = has(c.Reg.Grants, vkit.GCC) || tg.grant == vkit.GCC
-													c.Reg.StoredSecret = stored
-													for _, o := range optsAxis {
-														cc := c
-														cc.Opts = o
-														out = append(out, cc)
-													}
-													// the same request carrying the OTHER client's material (the other client: confidential web client that is
-													// never authenticated), its client_id riding along where the presentation leaves room for one
-													if reg && en && ownerMaterial(c) {
-														cc := c
-														cc.Owner = "other"
-														if riderable(pres) {
-															cc.BodyID = "other"
+														c.Reg.AuthMethod, c.Reg.AppType, c.Reg.HasKeys, c.Reg.Special = m, app, keys, sp
+														// client_credentials target: a service account whether or not the grant is registered, so that the grant check stands alone
+														c.Reg.Service = has(c.Reg.Grants, vkit.GCC) || tg.grant == vkit.GCC
+														c.Reg.StoredSecret = stored
+														for _, o := range optsAxis {
+															cc := c
+															cc.Opts = o
+															out = append(out, cc)
 														}
-														out = append(out, cc)
+														// the same request carrying the OTHER client's material (the other client: confidential web client that is
+														// never authenticated), its client_id riding along where the presentation leaves room for one
+														if reg && en && ownerMaterial(c) {
+															cc := c
+															cc.Owner = "other"
+															if riderable(pres) {
+																cc.BodyID = "other"
+															}
+															out = append(out, cc)
+															// ... and under a lax subject check with a live registration for the other client: the caller's method, every grant, a key
+															if lax {
+																cc.Z = &Reg{AuthMethod: m, AppType: app, Grants: vkit.AllGrants, HasKeys: true, Service: true}
+																out = append(out, cc)
+																cc.BodyID = ""
+																out = append(out, cc)
+															}
+														}
 													}
 												}
 											}
@@ -131,6 +144,14 @@ func sweepCells(wide bool) []Case {
 		}
 	}
 	return out
+}
+
+// laxAxis: the assertions whose standing depends on the verifier's subject check are enumerated under both kinds of verifier.
+func laxAxis(pres string) []bool {
+	if delegated(pres) || pres == "assert-issneq" || pres == "assert-right" {
+		return []bool{false, true}
+	}
+	return []bool{false}
 }
 
 // storedAxis: private_key_jwt and public clients are enumerated with and without a secret the storage also accepts.
